@@ -656,7 +656,7 @@ def fusion_capture_shape(tree: ast.AST) -> bool:
 
 
 def beta_capture_shape(tree: ast.AST) -> bool:
-    """a lambda that func_adl beta-reduces while fusing (second step of a Select/Where/SelectMany chain, or applied
+    """a lambda that func_adl beta-reduces while fusing (either step of a Select/Where/SelectMany chain, or applied
     directly) has a parameter that a nested lambda rebinds and uses: the substitution goes into the nested lambda"""
     def shadowed_use(lam: ast.Lambda) -> bool:
         ps = set(params(lam))
@@ -671,7 +671,7 @@ def beta_capture_shape(tree: ast.AST) -> bool:
             return True
         for op in ("Select", "Where", "SelectMany"):
             if is_method_call(n, op) and any(is_method_call(n.func.value, o2) for o2 in ("Select", "Where", "SelectMany")):
-                if shadowed_use(n.args[0]):
+                if shadowed_use(n.args[0]) or shadowed_use(n.func.value.args[0]):  # both lambdas of a fused pair are applied
                     return True
     return False
 
